@@ -202,10 +202,39 @@ def sweep_scripts(rng, gen, thorough):
     return out
 
 
+def random_call(rng, inst):
+    """a public control call: what the object model shows comes from the console's reports only, so a call changes nothing"""
+    acs = [a["id"] for a in inst["acs"]]
+    zs = sorted(inst["zones"])
+    k = rng.random()
+    a = rng.choice(acs)
+    if k < 0.3:
+        tt = rng.choice(["ON_TIMER", "OFF_TIMER"])
+        return rng.choice(["call ac %d clear_quick_timer %s" % (a, tt), "call ac %d set_quick_timer %s time %d %d" % (a, tt, rng.randint(0, 23), rng.randint(0, 59)),
+                           "call ac %d set_quick_timer %s duration %d" % (a, tt, rng.choice([60, 5400, 86340]))])
+    if k < 0.45:
+        return "call ac %d set_power %s" % (a, rng.choice(["TOGGLE", "TURN_OFF", "TURN_ON"]))
+    if k < 0.6:
+        return "call ac %d set_target_temperature %s" % (a, rng.choice(["18", "21.5", "26"]))
+    if k < 0.7:
+        return "call ac %d set_mode %s %d" % (a, rng.choice(["AUTO", "HEAT", "DRY", "FAN", "COOL"]), rng.choice([0, 1]))
+    if zs and k < 0.85:
+        return "call zone %d set_power %s" % (rng.choice(zs), rng.choice(["OFF", "ON", "TURBO"]))
+    if zs:
+        return rng.choice(["call zone %d set_damper_percentage %d" % (rng.choice(zs), rng.choice([0, 40, 100])),
+                           "call zone %d set_target_temperature %d" % (rng.choice(zs), rng.randint(17, 29))])
+    return "call at check_for_updates"
+
+
 def random_script(rng, gen, n_frames):
     inst = C.random_install(rng, gen)
     con = C.Console(rng, gen, inst)
-    return inst, [con.random_frame() for _ in range(n_frames)]
+    frames = []
+    for _ in range(n_frames):
+        frames.append(con.random_frame())
+        if rng.random() < 0.1:
+            frames.append(random_call(rng, inst))
+    return inst, frames
 
 
 def build_jobs(ctx, thorough):
